@@ -21,7 +21,9 @@ MANIFEST = {
             "sits at cur, writes hit only unassigned registers or exchange two variables'): from any well-formed context, for every number "
             "of register arguments and every injective destination assignment, ok => every destination holds its variable in destination "
             "form, under hypotheses that exclude exactly K3 (widening variable in an exchanged pair) and K5 (selection that does not extend); "
-            "K4 is outside the invariant. NOT proved: that init_work_data establishes the invariant, phases 1/3 (stack) and the SA variable; "
+            "K4 is outside the invariant; init_work_data is proved to establish the invariant (initWorkData_wf), giving shuffle_correct_regs: for "
+            "every register-only assignment, emitArgsAssignment ok => judge(run prog (setup ..)) = true. NOT proved: phases 1/3 (stack "
+            "sources/destinations) and the SA variable; "
             "the full-strength shuffle_correct is shown false at the K3/K4/K5 witnesses. Every schedule the real code emits is additionally "
             "judged by the abstract machine of Spec/Machine.lean (monitor = testing).",
     "note": "Model follows the code with fixes C06-1..6 (in /repo) and fixes/C06-7 (float<->double conversions inverted; until applied the "
